@@ -592,6 +592,9 @@ class Interp:
         m = re.fullmatch(r'[\w:]+(?:::<.*?>)?\((.*)\)', rv)   # tuple-struct ctor, e.g. AffineTransform::<T>(move _2)
         if m and not rv.startswith(('copy', 'move', 'const')):
             return [self.operand(env, x) for x in split_args(m.group(1))]
+        m = re.fullmatch(r'(?:[\w]+::)*(\w+)(?:::<[^{}]*>)?::(\w+) \{ (.*) \}', rv)   # struct-like variant of an enum declared in the source
+        if m and any(m.group(2) in vs for vs in self.mir.enums.get(m.group(1), [])):
+            return Enum(m.group(2), [self.operand(env, x.split(':', 1)[1]) for x in split_args(m.group(3))])
         m = re.fullmatch(r'[\w:]+(?:::<.*?>)? \{ (.*) \}', rv)  # struct ctor
         if m:
             return [self.operand(env, x.split(':', 1)[1]) for x in split_args(m.group(1))]
